@@ -246,20 +246,19 @@ def run(tape, scenario):
     env = Env(tape, faults=WireFaults(delay_buckets=(50e-6, 20e-6, 200e-6)))
     world = env.world
     nterm = 1 + tape.draw("c20/nterm", 2)
-    sims, terms = [], []
+    sims, terms, sizes = [], [], []
     ec = EtherCat("sim0")
     for k in range(nterm):
         nf = 1 + tape.draw("c20/nfmmu", 4)
-        st = SimTerminal(env.bus, f"T{k}", station=1001 + k, n_fmmu=nf)
-        if faults:
-            st.skip_datagram = lambda d: d.cmd == 5 and tape.chance("fault/skip-regwrite", 6)
+        from sim import sii
+        st = SimTerminal(env.bus, f"T{k}", station=1001 + k, n_fmmu=nf,
+                         eeprom=sii.build(2, 0x100 + k, 1, 7 + k))
         env.bus.add_terminal(st)
         t = Terminal(ec)
-        t.position = 1001 + k
         t.name = f"T{k}"
-        t.fmmu_used = [None] * nf
-        t.pdo_in_off, t.pdo_in_sz = 0x1100, 4 + tape.draw("c20/insz", 20)
-        t.pdo_out_off, t.pdo_out_sz = 0x1000, 4 + tape.draw("c20/outsz", 20)
+        # (the Terminal object is brought up by the real initialize(), so that it has
+        # whatever that leaves on it; only the process-data areas are given by hand)
+        sizes.append((4 + tape.draw("c20/insz", 20), 4 + tape.draw("c20/outsz", 20)))
         sims.append(st)
         terms.append(t)
 
@@ -427,6 +426,12 @@ def run(tape, scenario):
 
     async def main(loop):
         await ec.connect()
+        for k, (t, st) in enumerate(zip(terms, sims)):
+            await t.initialize(absolute=1001 + k)
+            t.pdo_in_off, t.pdo_in_sz = 0x1100, sizes[k][0]
+            t.pdo_out_off, t.pdo_out_sz = 0x1000, sizes[k][1]
+            if faults:
+                st.skip_datagram = lambda d: d.cmd == 5 and tape.chance("fault/skip-regwrite", 6)
         nw = 2 + tape.draw("c20/workers", 4)
         tasks = [asyncio.ensure_future(worker(i)) for i in range(nw)]
         if faults:
